@@ -504,3 +504,61 @@ PROPS["C15"] = {"jobs": tecmp_jobs, "assumptions": COMMON_ASSUME + [
     "oracle: an independent TECMP parse in harness/tecmp.cpp"],
     "level": "bounded symbolic model checking of TECMP decode+convert against an independent parse, incl. inconsistent inner lengths"}
 PROPS["C02"]["jobs"] = lambda: c02_jobs() + [j for j in tecmp_jobs()]
+
+
+# ------------------------------------------------------------------ C01 round trip
+def c01_jobs():
+    jobs, seen = [], set()
+
+    def add(lens, types=None, maxb=64, minb=0, api=None, pkind=0, symids=1, variant="mapmodel", tier="quick", flg=0x33, ver=1, timeout=None, tflags=0, startc=-1):
+        d = enc_shape(lens, types, maxb, minb, api)
+        if any(16 + l > maxb - 8 for l in lens):
+            symids = 0   # reassembly looks the endpoint up again: a symbolic key makes the found entry (and its sizes) a symbolic merge
+        nseg = max([-(-l // (maxb - 24)) for l in lens if 16 + l > maxb - 8] + [0])
+        d.update({"PKIND": pkind, "SYMIDS": symids, "FLG": flg, "VERB": ver, "TFLAGS": tflags, "STARTC": (startc if (startc >= 0 or nseg == 0 or (nseg <= 2 and len(lens) == 1)) else 65534)})
+        key = (tuple(sorted(d.items())), variant)
+        if key in seen:
+            return
+        seen.add(key)
+        jobs.append(Job("rt.cpp", "h_roundtrip", defs=d, unwind=1200, unwindset={("Decoder6decode", None): 5, ("_M_realloc_insert", None): 5, ("_Hashtable", None): 4, ("_M_release", None): 3},
+                        tier=tier, in_max=enc_in_max(d), mem_gb=8, variant=variant, timeout=timeout,
+                        sym="payload data bytes, timestamps, interface/vendor ids, typed header fields (CAN id/crc/flags, LIN id/checksum, Ethernet flags), encoder device/stream id (where SYMIDS=1), "
+                            "sequence-counter start (all 65536 values; concrete 65534 for shapes with 3 or more frames of which some are segments)",
+                        outside="common flags and protocol version are concrete per shape (0x33 / 1, variants in thorough); payloads > 136 bytes; more than 3 packets; max frame size > 64 (quick)"))
+
+    # quick: generic payloads, aggregation and segmentation boundaries, mixed types; CAN
+    for lens, types, kw in (
+        ([8], None, {}), ([16], None, {"maxb": 40}), ([17], None, {"maxb": 40}), ([33], None, {"maxb": 40}), ([20], None, {"maxb": 40, "minb": 40}),
+        ([8, 8], None, {}), ([8, 8], [1, 3], {}), ([8, 41], None, {}), ([41, 8], None, {}), ([8, 8, 8], [1, 3, 1], {}), ([4, 41, 4], None, {}), ([8], [0xFF], {}), ([8], [2], {}),
+        ([24], None, {"pkind": 1}), ([24, 24], None, {"pkind": 1, "maxb": 100}), ([16], None, {"pkind": 3}), ([30], None, {"pkind": 8}),
+    ):
+        add(lens, types, **kw)
+    add([8, 8], None, symids=0, variant="real")
+    add([17], None, maxb=40, symids=0, variant="real", startc=65535, tier="thorough", timeout=1500)
+    # thorough: boundaries for every frame size, both min settings, flags/version variants, real hashtable on more shapes
+    for mb in (25, 40, 64):
+        for mn in (0, mb):
+            for l in sorted({1, mb - 25, mb - 24, mb - 23, 2 * (mb - 24), 2 * (mb - 24) + 1}):
+                if l >= 1:
+                    add([l], None, maxb=mb, minb=mn, tier="thorough")
+    for (a, b) in ((8, 8), (8, 40), (8, 41), (40, 8), (41, 8), (41, 41), (33, 8), (81, 8)):
+        for (ta, tb) in ((1, 1), (1, 3), (3, 0xFF), (2, 2)):
+            add([a, b], [ta, tb], tier="thorough")
+    for (a, b, c) in ((8, 8, 8), (8, 41, 8), (41, 8, 8), (8, 8, 41), (81, 8, 8)):
+        for api in (1, 2):
+            add([a, b, c], [1, 1, 1], api=api, tier="thorough")
+    for flg, ver in ((0x00, 1), (0xBF, 2), (0x3F, 0xFF)):
+        add([8, 41], None, flg=flg, ver=ver, tier="thorough")
+    for pk, l in ((1, 16), (1, 24), (2, 80), (3, 8), (3, 16), (8, 6), (8, 46)):
+        add([l], None, pkind=pk, tier="thorough", tflags=1, timeout=1200)
+        add([l, l], None, pkind=pk, maxb=100, tier="thorough", timeout=1200)
+    for lens in ([8], [41], [8, 41], [41, 41]):
+        add(lens, None, symids=0, variant="real", tier="thorough", timeout=1500)
+    return jobs
+
+
+PROPS["C01"] = {"jobs": c01_jobs, "assumptions": ENC_ASSUME + [
+    "direct composition: real Encoder::encode, then every frame in order through one real Decoder; most shapes run against the unordered_map model with symbolic device/stream ids, "
+    "some against the real libstdc++ unordered_map with concrete ids",
+    "common flags, protocol version and payload-type byte are concrete per shape (a symbolic value makes the decoder's segment/type dispatch symbolic for CBMC)"],
+    "level": "bounded symbolic model checking of the composed encode->decode pipeline per batch shape, all contents symbolic"}
